@@ -31,6 +31,7 @@
 #include <stdio.h>
 #include <math.h>
 #include <float.h>
+#include <limits.h>
 
 #ifdef HAVE_UNISTD_H
 #include <unistd.h>
@@ -2047,7 +2048,9 @@ int cif_value_parse_numb(cif_value_tp *n, UChar *text) {
 
         exp_start = pos;
         while ((text[pos] >= UCHAR_0) && (text[pos] <= UCHAR_9)) {
-            exponent = (int) ((exponent * 10) + (text[pos] - UCHAR_0));
+            if (exponent < ((INT_MAX / 10) - 1)) {
+                exponent = (int) ((exponent * 10) + (text[pos] - UCHAR_0));
+            } /* else the exponent is already far beyond the range of type double; ignore digits to avoid overflow */
             pos += 1;
         }
         if (pos <= exp_start) {
